@@ -714,12 +714,22 @@ def run(ctx):
     ctx.extra['enumerated_window_configurations'] = len(wcases)
     ctx.extra['enumerated_loop_behaviours'] = len(lcases)
     events: list = []
-    _windows_part(ctx, events, wcases)
-    _loop_part(ctx, events, lcases)
-    _rmexact_part(ctx, events)
+    import time
+
+    timing = {}
+
+    def timed(name, fn, *a):
+        t0 = time.time()
+        fn(*a)
+        timing[name] = round(time.time() - t0, 1)
+
+    timed('windows', _windows_part, ctx, events, wcases)
+    timed('loop', _loop_part, ctx, events, lcases)
+    timed('rmexact', _rmexact_part, ctx, events)
     # ---- 3. recorded fits of synthetic spectra
-    _spectra_part(ctx, events, 48 if ctx.thorough else 10, 3 if ctx.thorough else 2)
-    _zero_dof_part(ctx, events, 6 if ctx.thorough else 2)
+    timed('spectra', _spectra_part, ctx, events, 40 if ctx.thorough else 8, 3 if ctx.thorough else 2)
+    timed('zero_dof', _zero_dof_part, ctx, events, 6 if ctx.thorough else 2)
+    ctx.extra['seconds_by_part'] = timing
     for i, e in enumerate(events):
         e['tid'] = i
     kinds = {}
